@@ -135,9 +135,9 @@ PROPS = {
     'C15': dict(
         title='set algebra identities across compositions',
         obligations=WF_EST + SAT + ORDER + BOUNDS + RANGE_SPEC + ['fn:BoundSet::intersect', 'fn:BoundSet::difference', 'fn:Range::intersect', 'fn:Range::difference',
-                                                   'fn:lemma_c15_commutative', 'fn:lemma_c15_associative', 'fn:lemma_c15_idempotent', 'fn:lemma_c15_a_minus_a', 'fn:lemma_c15_diff_disjoint', 'fn:lemma_c15_partition', 'fn:lemma_c15_double_difference'],
+                                                   'fn:BoundSet::display_fmt', 'fn:Range::display_fmt', 'fn:Version::display_fmt', 'fn:Identifier::display_fmt', 'fn:lemma_c15_commutative', 'fn:lemma_c15_associative', 'fn:lemma_c15_idempotent', 'fn:lemma_c15_a_minus_a', 'fn:lemma_c15_diff_disjoint', 'fn:lemma_c15_partition', 'fn:lemma_c15_double_difference'],
         assumptions=[STD],
-        not_decided=['results are printable and re-parsable (text shell)', 'for prereleases the identities are proved over `within` (bounds) and, where the property says so, over satisfaction with the opt-in gate the operands carry; identities between printed forms are not claimed'],
+        not_decided=['results are printable: Display for Range / BoundSet is proved to return normally on every well formed range and to write the text `alts_text` (A16); that this text parses back to the same set is C13 (not claimed; bounded stand-in)', 'for prereleases the identities are proved over `within` (bounds) and, where the property says so, over satisfaction with the opt-in gate the operands carry; identities between printed forms are not claimed'],
         witness='c15',
     ),
     'C16': dict(
@@ -157,6 +157,6 @@ PROPS = {
 }
 
 NOT_APPLICABLE = {
-    'C13': 'print -> parse round trip of Range: since session 4 both ends are within reach (the whole range grammar is under contract over the assumed winnow contracts; Display for BoundSet / Range is extracted), but the write! model is not applied to those two functions and the lemma chain per interval shape (printed text -> reference reader -> same interval) is not built; only "Display for BoundSet never hits unreachable! on a well formed interval" is decided, under C06',
+    'C13': 'print -> parse round trip of Range: since session 4 both ends are under contract -- Display for BoundSet / Range is proved to write `alts_text(range)` (A16), and every function of the range grammar is proved against a reference reader (A15) -- but the chain between them is not built: the contracts of `range` / `bound_sets` are relational over the lists winnow returns, so one needs (a) that those lists are determined by the text (a functional reader of a whole range text), (b) that this reader, on the printed text of an interval of each of the ten shapes, returns the comparators that were printed, (c) that their intervals have the cuts of the original. None of the three is done, so the property is not claimed; the bounded stand-in checks print -> parse -> same set for the results of the set operations on every run of C07 C08 C15',
     'C17': 'error input()/offset()/location() depend on where winnow leaves the input on failure, on str slicing and a pointer difference; error kinds on which combinator fails first; none expressible as a contract on code either tool can read',
 }
